@@ -364,8 +364,8 @@ class GeneInfo:
         gene_info.start = read_int(infile)
         gene_info.end = read_int(infile)
 
-        gene_info.all_read_region_start = gene_info.start
-        gene_info.all_read_region_end = gene_info.end
+        gene_info.all_read_region_start = read_int(infile)
+        gene_info.all_read_region_end = read_int(infile)
 
         # the rest is computed based on the database
         gene_info.reference_region = None
@@ -404,6 +404,9 @@ class GeneInfo:
         write_string(self.chr_id, outfile)
         write_int(self.start, outfile)
         write_int(self.end, outfile)
+        # region the reference sequence was taken from: reads may extend beyond the gene region
+        write_int(self.all_read_region_start, outfile)
+        write_int(self.all_read_region_end, outfile)
 
     def empty(self):
         return not self.exon_profiles.features
